@@ -1,9 +1,11 @@
 //! Single-thread history drivers, one per primitive family.
 
 pub mod event;
+pub mod mpmc;
 pub mod mutex;
 pub mod oneshot;
 pub mod semaphore;
+pub mod state;
 pub mod timer;
 
 use crate::engine::{Ctx, Ev};
